@@ -17,6 +17,7 @@ structure RefundEff (s : State) (h : Nat) (id : Id) (c : Contract) (s1 : State) 
   run : refundOne s id = .ok s1
   htlcs : s1.htlcs = AMap.set s.htlcs id (refunded c s.height)
   bank : s1.bank = payRefund s.bank c
+  esc : ∀ d, Bank.balOf s1.bank escrow d + escrowAmt d c = Bank.balOf s.bank escrow d
   queue : s1.queue = s.queue
   height : s1.height = s.height
   time : s1.time = s.time
@@ -49,10 +50,16 @@ theorem refundOne_due {s : State} {h : Nat} {id : Id} (hs : Inv s) (hm : (h, id)
       simpa [escrowAmt, escrowed, hopen, ht] using this
     obtain ⟨b, hb⟩ := sendCoins_succeeds s.bank escrow c.sender c.amount hle
     refine ⟨c, markRefunded { s with bank := b } id c, ?_⟩
-    refine { get := hget, isOpen := hopen, exp := hexp, run := ?_, htlcs := rfl, bank := ?_, queue := rfl,
+    refine { get := hget, isOpen := hopen, exp := hexp, run := ?_, htlcs := rfl, bank := ?_, esc := ?_, queue := rfl,
              height := rfl, time := rfl, params := rfl, prev := rfl, sup := ?_, inv := ?_ }
     · simp [refundOne, hget, ht, refundPlain, hb]
     · simp [payRefund, ht, markRefunded]; exact sendCoins_eq hb
+    · intro d
+      have := sendCoins_ok hb escrow d
+      have hne : ¬ (escrow = c.sender) := fun e => hsnd e.symm
+      simp only [hne, if_false, if_true] at this
+      simp [escrowAmt, escrowed, hopen, ht, markRefunded]
+      omega
     · intro d; simp [supOf, markRefunded]
     · refine ⟨?_, ?_, ?_, ?_⟩
       · exact wf_update hwf (id := id) (c' := refunded c s.height) rfl
@@ -84,11 +91,12 @@ theorem refundOne_due {s : State} {h : Nat} {id : Id} (hs : Inv s) (hm : (h, id)
         simp [dirAmt, ht, hopen, hdir, hamt, coinAmt] at h2
         unfold sumDir at h1; omega
       refine ⟨c, markRefunded { s with supplies := AMap.set s.supplies d0 { sup with incoming := sup.incoming - n } } id c, ?_⟩
-      refine { get := hget, isOpen := hopen, exp := hexp, run := ?_, htlcs := rfl, bank := ?_, queue := rfl,
+      refine { get := hget, isOpen := hopen, exp := hexp, run := ?_, htlcs := rfl, bank := ?_, esc := ?_, queue := rfl,
                height := rfl, time := rfl, params := rfl, prev := rfl, sup := ?_, inv := ?_ }
       · have : ¬ (sup.incoming < n) := by omega
         simp [refundOne, hget, ht, hdir, hamt, refundIncoming, hsup, this]
       · simp [payRefund, ht, hdir, markRefunded]
+      · intro d; simp [escrowAmt, escrowed, hopen, ht, hdir, markRefunded]
       · intro d
         simp only [supOf, markRefunded, getS?_set]
         by_cases e : d0 = d
@@ -126,12 +134,18 @@ theorem refundOne_due {s : State} {h : Nat} {id : Id} (hs : Inv s) (hm : (h, id)
         simpa [escrowAmt, escrowed, hopen, ht, hdir] using this
       obtain ⟨b, hb⟩ := sendCoins_succeeds s.bank escrow c.sender c.amount hle
       refine ⟨c, markRefunded { s with bank := b, supplies := AMap.set s.supplies d0 { sup with outgoing := sup.outgoing - n } } id c, ?_⟩
-      refine { get := hget, isOpen := hopen, exp := hexp, run := ?_, htlcs := rfl, bank := ?_, queue := rfl,
+      refine { get := hget, isOpen := hopen, exp := hexp, run := ?_, htlcs := rfl, bank := ?_, esc := ?_, queue := rfl,
                height := rfl, time := rfl, params := rfl, prev := rfl, sup := ?_, inv := ?_ }
       · have : ¬ (sup.outgoing < n) := by omega
         simp [refundOne, hget, ht, hdir, hamt, refundOutgoing, hsup, this]
         rw [← hamt, hb]
       · simp [payRefund, ht, hdir, markRefunded]; exact sendCoins_eq hb
+      · intro d
+        have := sendCoins_ok hb escrow d
+        have hne : ¬ (escrow = c.sender) := fun e => hsnd e.symm
+        simp only [hne, if_false, if_true] at this
+        simp [escrowAmt, escrowed, hopen, ht, hdir, markRefunded]
+        omega
       · intro d
         simp only [supOf, markRefunded, getS?_set]
         by_cases e : d0 = d
@@ -162,6 +176,35 @@ theorem refundOne_due {s : State} {h : Nat} {id : Id} (hs : Inv s) (hm : (h, id)
             exact hc.2.2.2
 
 
+theorem strandedSum_update {s s' : State} {id : Id} {c' : Contract}
+    (hh : s'.htlcs = AMap.set s.htlcs id c') (d : Denom) :
+    strandedSum s' d + ((AMap.get? s.htlcs id).map (strandedAmt d)).getD 0 = strandedSum s d + strandedAmt d c' := by
+  unfold strandedSum; rw [hh]; exact sumBy_set _ _ _ _
+
+/-- `EscrowExact` after one entry changed -/
+theorem escrowExact_update {s s' : State} {id : Id} {c' : Contract} (hs : EscrowExact s)
+    (hh : s'.htlcs = AMap.set s.htlcs id c')
+    (hb : ∀ d, Bank.balOf s.bank escrow d + escrowAmt d c' + strandedAmt d c'
+             = Bank.balOf s'.bank escrow d + ((AMap.get? s.htlcs id).map (escrowAmt d)).getD 0
+               + ((AMap.get? s.htlcs id).map (strandedAmt d)).getD 0) :
+    EscrowExact s' := by
+  intro d
+  have h1 := openEscrow_update hh d
+  have h2 := strandedSum_update hh d
+  have h3 := hs d
+  have h4 := hb d
+  omega
+
+theorem RefundEff.exact {s : State} {h : Nat} {id : Id} {c : Contract} {s1 : State} (e : RefundEff s h id c s1)
+    (hx : EscrowExact s) : EscrowExact { s1 with queue := dequeue s1.queue (h, id) } := by
+  apply escrowExact_update hx (id := id) (c' := refunded c s.height) e.htlcs
+  intro d
+  have := e.esc d
+  simp [e.get, strandedAmt, escrowAmt, escrowed, refunded, e.isOpen]
+  show _ = Bank.balOf s1.bank escrow d + _
+  simp [escrowAmt, escrowed, e.isOpen] at this
+  omega
+
 /-- the balances after refunding the listed contracts (as recorded in table `m`) one after the other -/
 def refundAll (m : AMap Id Contract) (b : Bank) (ids : List Id) : Bank :=
   ids.foldl (fun b id => match AMap.get? m id with | some c => payRefund b c | none => b) b
@@ -184,6 +227,7 @@ structure DueEff (s : State) (h : Nat) (ids : List Id) (s' : State) : Prop where
                 AMap.get? s'.htlcs id = some (Htlc.refunded c s.height)
   others : ∀ id, id ∉ ids → AMap.get? s'.htlcs id = AMap.get? s.htlcs id
   bank : s'.bank = refundAll s.htlcs s.bank ids
+  exact : EscrowExact s → EscrowExact s'
   height : s'.height = s.height
   time : s'.time = s.time
   params : s'.params = s.params
@@ -198,7 +242,7 @@ theorem processDue_ok (ids : List Id) {s : State} {h : Nat} (hs : Inv s) (hnd : 
   induction ids generalizing s with
   | nil =>
     refine ⟨s, { run := rfl, inv := hs, queue := fun x => by simp, refunded := fun id hid => by simp at hid,
-                 others := fun _ _ => rfl, bank := rfl, height := rfl, time := rfl, params := rfl, prev := rfl,
+                 others := fun _ _ => rfl, bank := rfl, exact := fun hx => hx, height := rfl, time := rfl, params := rfl, prev := rfl,
                  sup := fun d => ⟨rfl, Nat.le_refl _, rfl, rfl⟩ }⟩
   | cons id r ih =>
     have hnd' := List.nodup_cons.mp hnd
@@ -218,6 +262,7 @@ theorem processDue_ok (ids : List Id) {s : State} {h : Nat} (hs : Inv s) (hnd : 
       show AMap.get? s1.htlcs x = _
       rw [e.htlcs, get?_set]; simp [Ne.symm hx]
     refine ⟨s', { run := ?_, inv := e'.inv, queue := ?_, refunded := ?_, others := ?_, bank := ?_,
+                  exact := fun hx => e'.exact (e.exact hx),
                   height := by rw [e'.height]; exact e.height, time := by rw [e'.time]; exact e.time,
                   params := by rw [e'.params]; exact e.params, prev := by rw [e'.prev]; exact e.prev,
                   sup := ?_ }⟩
@@ -381,6 +426,7 @@ structure BlockEff (s : State) (h t : Nat) (s' : State) : Prop where
                 c.expiration = h ∧ AMap.get? s'.htlcs id = some (Htlc.refunded c h)
   others : ∀ id, (h, id) ∉ s.queue → AMap.get? s'.htlcs id = AMap.get? s.htlcs id
   bank : s'.bank = refundAll s.htlcs s.bank (dueIds s.queue h)
+  exact : EscrowExact s → EscrowExact s'
   height : s'.height = h
   time : s'.time = t
   params : s'.params = s.params
@@ -398,7 +444,7 @@ theorem beginBlock_ok {s : State} (hs : Inv s) (h t : Nat) : ∃ s', BlockEff s 
   obtain ⟨s1, e⟩ := processDue_ok (dueIds s.queue h) (inv_ctx hs h t) hnd hin
   refine ⟨updateLimits s1,
     { run := ?_, inv := inv_updateLimits e.inv, queue := ?_, refunded := ?_, others := ?_,
-      bank := ?_, height := ?_, time := ?_, params := ?_, sup := ?_ }⟩
+      bank := ?_, exact := ?_, height := ?_, time := ?_, params := ?_, sup := ?_ }⟩
   · simp only [stepBeginBlock, e.run]
   · intro x
     have hq : (updateLimits s1).queue = s1.queue := by unfold updateLimits; split <;> rfl
@@ -419,6 +465,14 @@ theorem beginBlock_ok {s : State} (hs : Inv s) (h t : Nat) : ∃ s', BlockEff s 
     exact e.others id (fun hm => hid ((mem_dueIds s.queue h id).mp hm))
   · have hb : (updateLimits s1).bank = s1.bank := by unfold updateLimits; split <;> rfl
     rw [hb]; exact e.bank
+  · intro hx
+    have hb : (updateLimits s1).bank = s1.bank := by unfold updateLimits; split <;> rfl
+    have hh : (updateLimits s1).htlcs = s1.htlcs := by unfold updateLimits; split <;> rfl
+    have := e.exact hx
+    intro d
+    have h0 := this d
+    unfold openEscrow strandedSum at *
+    rw [hb, hh]; exact h0
   · have hb : (updateLimits s1).height = s1.height := by unfold updateLimits; split <;> rfl
     rw [hb]; exact e.height
   · have hb : (updateLimits s1).time = s1.time := by unfold updateLimits; split <;> rfl
